@@ -613,7 +613,11 @@ func c01Judge(v *c01Vec, cs []c01Conc, want []c01Want, got []c01Dispatch, cfg c0
 			bad = fmt.Sprintf("body %q, RFC framing gives %q", d.Body, w.body)
 		}
 		if bad != "" {
-			report("misframe", c01Int(v.Allowed[k].Tag[1])-1, fmt.Sprintf("dispatch #%d (%s %s): %s [%s, %s seg=%d]",
+			culprit := c01Int(v.Allowed[k].Tag[1]) - 1
+			if k > 0 { // framing went wrong after the previous dispatched message
+				culprit = c01Int(v.Allowed[k-1].Tag[1]) - 1
+			}
+			report("misframe", culprit, fmt.Sprintf("dispatch #%d (%s %s): %s [%s, %s seg=%d]",
 				k+1, d.Method, d.URI, bad, cfg, transport, segMode))
 			return ok
 		}
@@ -685,6 +689,9 @@ func TestVerifC01ReqFraming(t *testing.T) {
 		}
 		nvec++
 		nontrivial := len(v.P[0].Hdrs) > 0 || len(v.P[0].Body) > 0 || v.P[0].Le != "crlf" || v.P[0].Host != "ok"
+		if nontrivial {
+			st.nontrivial++ // distinct non-trivial pipelines
+		}
 		cfgs := []c01Cfg{{}}
 		for i := 0; i < cfgPerVec; i++ {
 			cfgs = append(cfgs, randCfg())
@@ -716,9 +723,6 @@ func TestVerifC01ReqFraming(t *testing.T) {
 				conn := &c01Conn{segs: c01Segment(wire, bounds, mode, rng), run: run}
 				srv.ServeConn(conn) //nolint:errcheck
 				st.runs++
-				if nontrivial {
-					st.nontrivial++
-				}
 				if c01Judge(&v, cs, want, run.dispatches, cfg, "scripted", mode, wire, &st) {
 					// response shape: one 200 per dispatch, at most one error status, last
 					heads := make([]bool, len(run.dispatches))
